@@ -61,14 +61,14 @@ def get_expectation_value_from_frequencies(
         - 1
     )
     num_measurements = sum(bitstring_frequencies.values())
-    expectation_values: np.ndarray = (
-        np.fromiter(bitstring_frequencies.values(), dtype=int)
-        * parity
-        / num_measurements
+    signed_counts: np.ndarray = (
+        np.fromiter(bitstring_frequencies.values(), dtype=int) * parity
     )
 
-    # The item method converts a numpy float to a native Python float
-    return expectation_values.sum().item()
+    # Sum the integer counts first and divide once: dividing every count separately
+    # accumulates rounding errors, so that even a constant term would not average to
+    # exactly 1. The item method converts a numpy int to a native Python int.
+    return signed_counts.sum().item() / num_measurements
 
 
 def _check_sample_elimination(
